@@ -67,6 +67,13 @@ def check(res, tier, seed):
                       dict(kind="resolve", last=recs[-1] if recs else None, output=out[-3000:]))
     roots = {}
     cases = collections.defaultdict(list)
+    for r in [x for x in recs if x.get("mut")]:
+        # the object graph changes between requests on one link: the sub-object held NOW answers
+        if r["outcome"] != r["expect"]:
+            monitor_hits += 1
+            res.violation("resolve-mutating-graph", "%s: request %r was answered with %s (application code that ran: %s), expected %s - the method of the sub-object that is held now" % (
+                r["step"], r["fn"], r["outcome"], r.get("hits"), r["expect"]), dict(kind="resolve-mutating-graph", case=r))
+    recs = [x for x in recs if not x.get("mut")]
     for r in recs:
         if "desc" in r:
             roots[r["root"]] = r
@@ -173,6 +180,17 @@ def check(res, tier, seed):
                 res.violation("peerfuzz-note", n, dict(kind="peerfuzz", seed=fr["seed"]))
         total += nfuzz
         dist.update(fdist)
+    if pid == "C07":
+        # "... with the calling link's identity in its context": hubs with several links, relinking after a failure
+        from . import sys_props
+        hrecs, hrc, hout = C.run_job(binary, wd, "hubid", dict(family="sys", seed=seed, n=(12 if tier == "quick" else 200), cases=["hub", "nestedlink"]), timeout=600)
+        for r in hrecs:
+            vs = sys_props.mon_nestedlink(r) if r["family"] == "nestedlink" else [v for v in sys_props.mon_c13(r) if "identity" in v or " id " in v or "remote id" in v]
+            if vs:
+                monitor_hits += 1
+                res.violation("link-identity", "implementation violates C07 (the identity a handler reads from its context is not the calling link's): %s" % vs[0],
+                              dict(kind="sys", family=r["family"], config=r["config"], seed=r["seed"], all=vs[:6]))
+        total += len(hrecs)
     if getattr(res, "proof_broken", None):
         why, log = res.proof_broken
         res.violation("proof-broken", "proof obligations of %s no longer check: %s" % (pid, why),
